@@ -4,6 +4,15 @@ open Conv
 open Hexu
 
 
+let code_of (e : Check.cerr) =
+  let n = string_of_n in
+  match e with
+  | Check.EAlreadyFreed id -> "AF:" ^ n id | Check.EUnreachUnfreed id -> "UU:" ^ n id | Check.EOutOfBounds id -> "OB:" ^ n id
+  | Check.EMultiRef id -> "MR:" ^ n id | Check.EReachFreed id -> "RF:" ^ n id | Check.EInvalidType id -> "IT:" ^ n id
+  | Check.EUnexpectedType pg -> "UT:" ^ n pg
+  | Check.EKeyFirst (pg, i) -> "KF:" ^ n pg ^ ":" ^ n i | Check.EKeyLt (pg, i) -> "KL:" ^ n pg ^ ":" ^ n i
+  | Check.EKeyEq (pg, i) -> "KE:" ^ n pg ^ ":" ^ n i | Check.EKeyMax (pg, i) -> "KM:" ^ n pg ^ ":" ^ n i
+
 let run file =
   let ic = open_in file in
   let cases = ref 0 and ops = ref 0 and mism = ref 0 and pfail = ref 0 in
@@ -35,6 +44,27 @@ let run file =
               | None -> "consistent") in
       let lib = get kv "lib" and cli = get kv "cli" in
       let cls = match !cur with "mut" :: c :: _ -> c | _ -> "base" in
+      (* (K) Check.v, the line-for-line model of Tx.check, on the same bytes: the multiset of (class, page, index) it reports
+         must be the one Tx.Check reported.  Compared exactly when the run completed, every message was recognised and the
+         keys are ordered (nested buckets are then visited in the same order); otherwise only emptiness is compared. *)
+      let errs = get kv "errs" in
+      if errs <> "" && lib <> "crash" && lib <> "hang" && lib <> "childerr" && String.length lib < 12 && not (String.length lib >= 5 && String.sub lib 0 5 = "crash") then begin
+        match with_timeout 5 (fun () -> Check.check_file rd ps (nat_of_int 64) []) with
+        | Some (Some merrs) ->
+          let mc = List.sort compare (List.map code_of merrs) in
+          let ic = if errs = "-" then [] else List.sort compare (String.split_on_char ',' errs) in
+          let exact = (match verdict with "consistent" | "corrupt:accounting" -> true | _ -> false)
+                      && not (List.mem "??" ic) && List.length ic < 400 && List.length mc < 400 in
+          if exact then begin
+            if mc <> ic then report "MISMATCH" "what=check_model" (Printf.sprintf "impl=[%s] model=[%s]" (String.concat "," ic) (String.concat "," mc))
+            else if mc <> [] then flag "check-model-agrees-on-errors"
+          end else if (mc = []) <> (ic = []) then
+            report "MISMATCH" "what=check_model_verdict" (Printf.sprintf "impl=[%s] model=[%s]" (String.concat "," ic) (String.concat "," mc));
+          (* the CLI's decision as modelled: exit 1 iff the list is not empty *)
+          if cli <> "crash" && cli <> "hang" && cli <> "childerr" && string_of_n (Check.cli_exit merrs) <> cli && mc = ic then
+            report "MISMATCH" "what=cli_exit_model" (Printf.sprintf "impl=%s model=%s" cli (string_of_n (Check.cli_exit merrs)))
+        | _ -> ()
+      end;
       let reported = (lib <> "0" && lib <> "crash" && lib <> "hang" && lib <> "childerr") in
       if verdict = "consistent" then begin
         if !cur = ["base"] then flag "base" else flag ("harmless-" ^ cls);
